@@ -441,8 +441,9 @@ def _r1(ctx):
              MS + ":MeanstressTransformCollective.five_segment": "five_segment",
              MS + ":MeanstressTransformMatrix.fkm_goodman": "fkm_goodman"}
     tr = prog.func(MS + ":HaighDiagram.transform")
+    from ..inline import inlined
     for key, ctor in table.items():
-        f = prog.func(key)
+        f = inlined(prog, prog.func(key))          # shared private helpers (module level or methods) expanded
         goal = f.params[-1]
         ctors = [c for c in calls_in(f.node) if isinstance(c.func, ast.Attribute) and isinstance(c.func.value, ast.Name)
                  and c.func.value.id == "HaighDiagram"]
@@ -452,9 +453,11 @@ def _r1(ctx):
         if ok:
             recv = trs[0].func.value
             if isinstance(recv, ast.Name):
-                d = [s for s in f.node.body if isinstance(s, ast.Assign) and isinstance(s.targets[0], ast.Name)
+                d = [s for s in walk_function(f.node) if isinstance(s, ast.Assign) and isinstance(s.targets[0], ast.Name)
                      and s.targets[0].id == recv.id]
-                ok = bool(d) and d[0].value is ctors[0]
+                ok = bool(d) and (d[0].value is ctors[0] or (isinstance(d[0].value, ast.Name) and any(
+                    isinstance(s2, ast.Assign) and isinstance(s2.targets[0], ast.Name) and s2.targets[0].id == d[0].value.id and
+                    s2.value is ctors[0] for s2 in walk_function(f.node))))
             else:
                 ok = recv is ctors[0]
         if ok:
